@@ -23,7 +23,7 @@ struct GraphInfo {
 	}
 };
 
-inline GraphInfo buildGraph(nifly::NifFile& nif, Tape& t, size_t vi) {
+inline GraphInfo buildGraph(nifly::NifFile& nif, Tape& t, size_t vi, bool allowPermute = true) {
 	using namespace nifly;
 	GraphInfo gi;
 	const VersionCfg& ver = versions()[vi];
@@ -265,7 +265,7 @@ inline GraphInfo buildGraph(nifly::NifFile& nif, Tape& t, size_t vi) {
 		gi.add("loose-blocks");
 
 	// ---- permute the block order (root may end up at a non-zero index)
-	if (t.chance(128)) {
+	if (t.chance(128) && allowPermute) {
 		uint32_t n = hdr.GetNumBlocks();
 		std::vector<uint32_t> perm(n);
 		for (uint32_t i = 0; i < n; i++)
